@@ -569,7 +569,7 @@ MOVE_OPS = {
     aten.unfold_copy, aten.repeat_interleave, aten.select_scatter, aten.slice_scatter, aten.diagonal_copy,
     aten.embedding, aten.im2col, aten.expand_copy, aten.permute_copy, aten.view_copy, aten.t_copy, aten.squeeze_copy,
     aten.unsqueeze_copy, aten.transpose_copy, aten.split_with_sizes_copy, aten._reshape_copy, aten.lift_fresh,
-    aten.lift_fresh_copy, aten.alias_copy, aten.detach_copy, aten.new_empty_strided,
+    aten.lift_fresh_copy, aten.alias_copy, aten.detach_copy,
 }
 
 
@@ -901,7 +901,7 @@ def _zero_(self, func, res, args, kwargs, pre):
     self.write(args[0], self.terms_of(0, args[0].dtype))
 
 
-@handler(aten.zeros_like, aten.ones_like, aten.empty_like, aten.new_zeros, aten.new_ones, aten.new_empty, aten.new_full, aten.rand_like, aten.randn_like)
+@handler(aten.zeros_like, aten.ones_like, aten.empty_like, aten.new_zeros, aten.new_ones, aten.new_empty, aten.new_empty_strided, aten.new_full, aten.rand_like, aten.randn_like)
 def _like(self, func, res, args, kwargs, pre):
     return  # fresh concrete tensor, no symbolic content
 
